@@ -120,11 +120,15 @@ theorem pickErr_shift (b : Nat) (cur new : Option Err) :
 
 theorem regCall_shift (b : Nat) (st : St) : (st.shift b).regCall = st.regCall.shift b := rfl
 
-theorem logEv_shift (b : Nat) (cfg : Cfg) (st : St) (e : Ev) :
-    (st.shift b).logEv (shiftCfg b cfg) (e.shift b) = (st.logEv cfg e).shift b := by
+theorem logEv_shift' (b : Nat) (cfg cfg' : Cfg) (hg : cfg'.ghost = cfg.ghost) (st : St) (e : Ev) :
+    (st.shift b).logEv cfg' (e.shift b) = (st.logEv cfg e).shift b := by
   unfold St.logEv
-  simp only [shiftCfg_ghost]
-  cases cfg.ghost <;> simp [St.shift]
+  simp only [hg]
+  by_cases h : cfg.ghost = true <;> simp [St.shift, h]
+
+theorem logEv_shift (b : Nat) (cfg : Cfg) (st : St) (e : Ev) :
+    (st.shift b).logEv (shiftCfg b cfg) (e.shift b) = (st.logEv cfg e).shift b :=
+  logEv_shift' b cfg _ rfl st e
 
 theorem setError_shift (b : Nat) (st : St) (e : Option Err) :
     (st.shift b).setError (e.map (Err.shift b)) = (st.setError e).shift b := by
@@ -137,6 +141,10 @@ theorem setError_shift (b : Nat) (st : St) (e : Option Err) :
     | some c =>
       simp only [Option.map_some, Err.shift_pos, ge_iff_le, Nat.add_le_add_iff_right]
       split <;> simp [St.shift, hc]
+
+theorem setError_shift_some (b : Nat) (st : St) (p : Nat) (k : ErrKind) :
+    (St.shift b st).setError (some ⟨p + b, k⟩) = (st.setError (some ⟨p, k⟩)).shift b :=
+  setError_shift b st (some ⟨p, k⟩)
 
 theorem cacheGet_shift (b : Nat) (c : List CacheEntry) (idx pos : Nat) (ctx : Ctx) :
     cacheGet (c.map (CacheEntry.shift b)) idx (pos + b) ctx = (cacheGet c idx pos ctx).map (CacheEntry.shift b) := by
@@ -203,20 +211,23 @@ theorem altErr_shift (b pos : Nat) (a : AltSt) (e2 : Option Err) :
   cases e2 with
   | none => rfl
   | some e2 =>
-    have h2 : (decide (e2.pos + b > pos + b) || !e2.kind.isNotFound) = (decide (e2.pos > pos) || !e2.kind.isNotFound) := by
-      simp
-    cases ha : a.err with
-    | none =>
-      simp only [altErr, Option.map_some, AltSt.shift_err, Err.shift_pos, Err.shift_kind, ha, Option.map_none, h2]
-      simp only [if_true]
-      split <;> simp [AltSt.shift, ha, Err.shift]
-    | some e =>
-      simp only [altErr, Option.map_some, AltSt.shift_err, Err.shift_pos, Err.shift_kind, ha, h2]
-      have h1 : decide (e2.pos + b ≥ e.pos + b) = decide (e2.pos ≥ e.pos) := by simp
-      rw [h1]
-      split
-      · split <;> simp [AltSt.shift, ha, Err.shift]
-      · simp [AltSt.shift, ha, Err.shift]
+    by_cases c2 : e2.pos > pos ∨ e2.kind.isNotFound = false
+    · cases ha : a.err with
+      | none => simp [altErr, AltSt.shift, Err.shift, ha, c2]
+      | some e =>
+        by_cases c1 : e2.pos ≥ e.pos
+        · have c1' : e2.pos + b ≥ e.pos + b := by omega
+          simp [altErr, AltSt.shift, Err.shift, ha, c2, c1, c1']
+        · have c1' : ¬ e2.pos + b ≥ e.pos + b := by omega
+          simp [altErr, AltSt.shift, Err.shift, ha, c1, c1']
+    · cases ha : a.err with
+      | none => simp [altErr, AltSt.shift, Err.shift, ha, c2]
+      | some e =>
+        by_cases c1 : e2.pos ≥ e.pos
+        · have c1' : e2.pos + b ≥ e.pos + b := by omega
+          simp [altErr, AltSt.shift, Err.shift, ha, c2, c1, c1']
+        · have c1' : ¬ e2.pos + b ≥ e.pos + b := by omega
+          simp [altErr, AltSt.shift, Err.shift, ha, c1, c1']
 
 /-! ### trims -/
 
@@ -225,5 +236,448 @@ theorem wsToErr_shift (b : Nat) (e : Option (Nat × WsErr)) :
   cases e with
   | none => rfl
   | some e => rfl
+
+/-- SkipWhitespaces commutes with the shift of this file by `b` (true when `1 ≤ f.offset`, and when `b = 0`) -/
+def WsShift (b : Nat) (f : File) : Prop :=
+  ∀ pos m, skipWhitespaces (shiftFile b f) (pos + b) m = shiftWs b (skipWhitespaces f pos m)
+
+theorem wsShift_of_offset (b : Nat) (f : File) (hoff : 1 ≤ f.offset) : WsShift b f :=
+  fun pos m => skipWhitespaces_shift b f pos m hoff
+
+theorem setRposNode_shift (b : Nat) (f : File) (m : WsMode) (hws : WsShift b f) (n : Node) (ws : Option Err) :
+    setRposNode (shiftFile b f) m (n.shift b) (ws.map (Err.shift b))
+      = ((setRposNode f m n ws).1.shift b, (setRposNode f m n ws).2.map (Err.shift b)) := by
+  cases n with
+  | term t v p r =>
+    simp only [setRposNode, Node.shift, hws r m]
+    rcases skipWhitespaces f r m with ⟨r', e⟩
+    simp [shiftWs, wsToErr_shift]
+  | nt t c p r i =>
+    simp only [setRposNode, Node.shift, hws r m]
+    rcases skipWhitespaces f r m with ⟨r', e⟩
+    simp [shiftWs, wsToErr_shift]
+  | empty p =>
+    simp only [setRposNode, Node.shift, hws p m]
+    rcases skipWhitespaces f p m with ⟨r', e⟩
+    simp [shiftWs, wsToErr_shift]
+  | eof p => simp [setRposNode, Node.shift]
+
+theorem setRposList_shift (b : Nat) (f : File) (m : WsMode) (hws : WsShift b f) (l : List Node) : ∀ ws : Option Err,
+    setRposList (shiftFile b f) m (l.map (Node.shift b)) (ws.map (Err.shift b))
+      = ((setRposList f m l ws).1.map (Node.shift b), (setRposList f m l ws).2.map (Err.shift b)) := by
+  induction l with
+  | nil => intro ws; rfl
+  | cons n rest ih =>
+    intro ws
+    simp only [setRposList, List.map_cons, setRposNode_shift b f m hws, ih]
+
+theorem setRposRes_shift (b : Nat) (f : File) (m : WsMode) (hws : WsShift b f) (r : Res) :
+    setRposRes (shiftFile b f) m (r.shift b)
+      = ((setRposRes f m r).1.shift b, (setRposRes f m r).2.map (Err.shift b)) := by
+  cases r with
+  | nil => rfl
+  | one n =>
+    have := setRposNode_shift b f m hws n none
+    simp only [Option.map_none] at this
+    simp only [setRposRes, Res.shift, this]
+  | list l =>
+    have := setRposList_shift b f m hws l none
+    simp only [Option.map_none] at this
+    simp only [setRposRes, Res.shift, this]
+
+/-! ### the loops, for any two step functions related by the shift -/
+
+def ShiftRel (b : Nat) (r r' : RunFn) : Prop :=
+  ∀ g ctx pos st, r' g ctx (pos + b) (St.shift b st) = (r g ctx pos st).map (shiftOS b)
+
+def shiftSeq (b : Nat) (t : Bool × SeqSt × St) : Bool × SeqSt × St := (t.1, t.2.1.shift b, t.2.2.shift b)
+
+theorem seqAlts_shift (b : Nat) (k k' : Node → SeqSt → St → Option (Bool × SeqSt × St))
+    (hk : ∀ n ss st, k' (n.shift b) (ss.shift b) (st.shift b) = (k n ss st).map (shiftSeq b)) :
+    ∀ (l : List Node) ss st,
+      seqAlts k' (l.map (Node.shift b)) (SeqSt.shift b ss) (St.shift b st) = (seqAlts k l ss st).map (shiftSeq b) := by
+  intro l
+  induction l with
+  | nil => intro ss st; rfl
+  | cons n rest ih =>
+    intro ss st
+    simp only [List.map_cons, seqAlts, hk]
+    rcases k n ss st with _ | ⟨_ | _, ss1, st1⟩
+    · rfl
+    · simp only [Option.map_some, shiftSeq]; exact ih ss1 st1
+    · rfl
+
+/-- `seqParse` in pieces: the call of the next parser … -/
+def seqStep (r : RunFn) (sh : SeqShape) (depth : Nat) (ctx : Ctx) (pos : Nat) (st : St) : Option (Out × St) :=
+  match sh.lookup depth with
+  | some g => r g ctx pos st.regCall
+  | none => some (⟨.nil, [], none⟩, st)
+
+/-- … the update of the error and of the curtailing parsers … -/
+def ssUpd (merge : Bool) (ss : SeqSt) (o : Out) : SeqSt :=
+  let ss := { ss with err := pickErr ss.err o.err }
+  if merge then { ss with cp := cpUnion ss.cp o.cp } else ss
+
+/-- … `parseNext` … -/
+def seqNext (r : RunFn) (sh : SeqShape) (fuel depth : Nat) (nodes : List Node) (ctx : Ctx) (pos : Nat) (merge : Bool) :
+    Node → SeqSt → St → Option (Bool × SeqSt × St) :=
+  fun n ss st =>
+    let consumed := n.rpos > pos
+    seqParse r sh fuel (depth + 1) (nodes ++ [n]) (if consumed then [] else ctx) n.rpos
+      (merge && !consumed) ss st
+
+/-- … and what happens with the result -/
+def seqCont (r : RunFn) (sh : SeqShape) (fuel depth : Nat) (nodes : List Node) (ctx : Ctx) (pos : Nat) (merge : Bool)
+    (ss : SeqSt) (o : Out) (st : St) : Option (Bool × SeqSt × St) :=
+  match o.res with
+  | .nil =>
+    if sh.lenCheck depth then
+      if depth > 0 then
+        some ((match nodes.getLast? with | some l => l.token == eofTok | none => false),
+              { ss with result := appendNode ss.result (.one (handleResult sh pos nodes)) }, st)
+      else
+        some (false, { ss with result := appendNode ss.result (.one (handleResult sh pos [])) }, st)
+    else some (false, ss, st)
+  | res => seqAlts (seqNext r sh fuel depth nodes ctx pos merge) res.alts ss st
+
+theorem seqParse_succ (r : RunFn) (sh : SeqShape) (fuel depth : Nat) (nodes : List Node) (ctx : Ctx) (pos : Nat)
+    (merge : Bool) (ss : SeqSt) (st : St) :
+    seqParse r sh (fuel + 1) depth nodes ctx pos merge ss st =
+      match seqStep r sh depth ctx pos st with
+      | none => none
+      | some (o, st1) => seqCont r sh fuel depth nodes ctx pos merge (ssUpd merge ss o) o st1 := by
+  rw [seqParse]
+  rfl
+
+theorem ssUpd_shift (b : Nat) (merge : Bool) (ss : SeqSt) (o : Out) :
+    ssUpd merge (ss.shift b) (o.shift b) = (ssUpd merge ss o).shift b := by
+  cases merge <;> simp [ssUpd, SeqSt.shift, Out.shift, pickErr_shift]
+
+theorem seqStep_shift (b : Nat) (r r' : RunFn) (h : ShiftRel b r r') (sh : SeqShape) (depth : Nat) (ctx : Ctx)
+    (pos : Nat) (st : St) :
+    seqStep r' sh depth ctx (pos + b) (st.shift b) = (seqStep r sh depth ctx pos st).map (shiftOS b) := by
+  unfold seqStep
+  cases sh.lookup depth with
+  | none => rfl
+  | some g => simp only [regCall_shift, h g ctx pos st.regCall]
+
+theorem seqParse_shift (b : Nat) (r r' : RunFn) (h : ShiftRel b r r') (sh : SeqShape) :
+    ∀ fuel depth nodes ctx pos merge ss st,
+    seqParse r' sh fuel depth (nodes.map (Node.shift b)) ctx (pos + b) merge (SeqSt.shift b ss) (St.shift b st)
+      = (seqParse r sh fuel depth nodes ctx pos merge ss st).map (shiftSeq b) := by
+  intro fuel
+  induction fuel with
+  | zero => intros; rfl
+  | succ fuel ih =>
+    intro depth nodes ctx pos merge ss st
+    rw [seqParse_succ, seqParse_succ, seqStep_shift b r r' h]
+    rcases seqStep r sh depth ctx pos st with _ | ⟨o, st1⟩
+    · rfl
+    · simp only [Option.map_some, shiftOS, ssUpd_shift]
+      generalize ssUpd merge ss o = ss1
+      have hnext : ∀ n ss st, seqNext r' sh fuel depth (nodes.map (Node.shift b)) ctx (pos + b) merge (n.shift b) (SeqSt.shift b ss) (St.shift b st)
+          = (seqNext r sh fuel depth nodes ctx pos merge n ss st).map (shiftSeq b) := by
+        intro n ss st
+        simp only [seqNext, Node.shift_rpos, gt_iff_lt, Nat.add_lt_add_iff_right]
+        have : nodes.map (Node.shift b) ++ [n.shift b] = (nodes ++ [n]).map (Node.shift b) := by simp
+        rw [this, ih]
+      unfold seqCont
+      have hA1 : ∀ (a : Res) (n : Node), appendNode (a.shift b) (.one (n.shift b)) = (appendNode a (.one n)).shift b :=
+        fun a n => appendNode_shift b a (.one n)
+      have hH0 : handleResult sh (pos + b) [] = (handleResult sh pos []).shift b := handleResult_shift b sh pos []
+      cases hres : o.res with
+      | nil =>
+        have hN : Res.shift b .nil = .nil := rfl
+        simp only [Out.shift, hres, hN, List.getLast?_map, SeqSt.shift_result, handleResult_shift, hH0, hA1]
+        by_cases h1 : sh.lenCheck depth = true
+        · by_cases h2 : depth > 0
+          · simp only [h1, h2, if_true, Option.map_some, shiftSeq]
+            cases nodes.getLast? <;> simp [SeqSt.shift]
+          · simp only [h1, h2, if_true, if_false, Option.map_some, shiftSeq]
+            simp [SeqSt.shift]
+        · simp [h1, shiftSeq]
+      | one n =>
+        simp only [Out.shift, hres, Res.shift]
+        exact seqAlts_shift b _ _ hnext [n] ss1 st1
+      | list l =>
+        simp only [Out.shift, hres, Res.shift]
+        exact seqAlts_shift b _ _ hnext l ss1 st1
+
+def shiftAny (b : Nat) (t : AltSt × St) : AltSt × St := (t.1.shift b, t.2.shift b)
+
+theorem anyLoop_shift (b : Nat) (r r' : RunFn) (h : ShiftRel b r r') (ctx : Ctx) (pos : Nat) :
+    ∀ (gs : List G) (a : AltSt) (st : St),
+    anyLoop r' ctx (pos + b) gs (AltSt.shift b a) (St.shift b st) = (anyLoop r ctx pos gs a st).map (shiftAny b) := by
+  intro gs
+  induction gs with
+  | nil => intro a st; rfl
+  | cons g gs ih =>
+    intro a st
+    simp only [anyLoop, regCall_shift, h g ctx pos st.regCall]
+    rcases r g ctx pos st.regCall with _ | ⟨o, st1⟩
+    · rfl
+    · simp only [Option.map_some, shiftOS]
+      have : (⟨cpUnion (AltSt.shift b a).cp (Out.shift b o).cp, appendNode (AltSt.shift b a).res (Out.shift b o).res,
+                (AltSt.shift b a).err, (AltSt.shift b a).nf⟩ : AltSt)
+          = AltSt.shift b ⟨cpUnion a.cp o.cp, appendNode a.res o.res, a.err, a.nf⟩ := by
+        simp [AltSt.shift, Out.shift, appendNode_shift]
+      rw [this]
+      have he : (Out.shift b o).err = o.err.map (Err.shift b) := rfl
+      rw [he, altErr_shift, ih]
+
+def shiftChoice (b : Nat) (t : Option Out × AltSt × St) : Option Out × AltSt × St :=
+  (t.1.map (Out.shift b), t.2.1.shift b, t.2.2.shift b)
+
+theorem choiceLoop_shift (b : Nat) (r r' : RunFn) (h : ShiftRel b r r') (ctx : Ctx) (pos : Nat) :
+    ∀ (gs : List G) (a : AltSt) (st : St),
+    choiceLoop r' ctx (pos + b) gs (AltSt.shift b a) (St.shift b st) = (choiceLoop r ctx pos gs a st).map (shiftChoice b) := by
+  intro gs
+  induction gs with
+  | nil => intro a st; rfl
+  | cons g gs ih =>
+    intro a st
+    simp only [choiceLoop, regCall_shift, h g ctx pos st.regCall]
+    rcases r g ctx pos st.regCall with _ | ⟨o, st1⟩
+    · rfl
+    · simp only [Option.map_some, shiftOS]
+      have : (⟨cpUnion (AltSt.shift b a).cp (Out.shift b o).cp, (AltSt.shift b a).res,
+                (AltSt.shift b a).err, (AltSt.shift b a).nf⟩ : AltSt)
+          = AltSt.shift b ⟨cpUnion a.cp o.cp, a.res, a.err, a.nf⟩ := by
+        simp [AltSt.shift, Out.shift]
+      rw [this]
+      have he : (Out.shift b o).err = o.err.map (Err.shift b) := rfl
+      have hr : (Out.shift b o).res = o.res.shift b := rfl
+      rw [he, hr, altErr_shift, Res.shift_isNil]
+      split
+      · simp [shiftChoice, Out.shift, setError_shift]
+      · exact ih _ _
+
+/-! ### the Sequence family, in pieces -/
+
+/-- what `(*Sequence).Parse` does after `sequence.parse` has returned -/
+def seqFinish (sh : SeqShape) (pos : Nat) (ss : SeqSt) (st : St) : Out × St :=
+  let (res, err, st) :=
+    if ss.result.isNil then (Res.nil, ss.err, st) else (ss.result, none, st.setError ss.err)
+  let err := match err, sh.name with
+    | some e, some nm => if e.pos = pos && e.kind.isNotFound then some ⟨pos, .notFound nm⟩ else some e
+    | e, _ => e
+  (⟨res, ss.cp, err⟩, st)
+
+def seqTail (r : RunFn) (sh : SeqShape) (fuel : Nat) (ctx : Ctx) (pos : Nat) (st : St) : Option (Out × St) :=
+  match seqParse r sh fuel 0 [] ctx pos true {} st with
+  | none => none
+  | some (_, ss, st) => some (seqFinish sh pos ss st)
+
+theorem run_seqFamily (cfg : Cfg) (fuel : Nat) (g : G) (ctx : Ctx) (pos : Nat) (st : St) (sh : SeqShape)
+    (hg : (∃ k gs o, g = .seq k gs o) ∨ (∃ g' ae o, g = .many g' ae o) ∨ (∃ v s ae o, g = .sepBy v s ae o))
+    (hsh : g.shape = some sh) :
+    run cfg (fuel + 1) g ctx pos st =
+      if cfg.maxCalls ≠ 0 ∧ st.calls > cfg.maxCalls then none else seqTail (run cfg fuel) sh fuel ctx pos st := by
+  rcases hg with ⟨k, gs, o, rfl⟩ | ⟨g', ae, o, rfl⟩ | ⟨v, s', ae, o, rfl⟩
+  all_goals
+    simp only [run, hsh]
+    rfl
+
+theorem seqFinish_shift (b : Nat) (sh : SeqShape) (pos : Nat) (ss : SeqSt) (st : St) :
+    seqFinish sh (pos + b) (ss.shift b) (st.shift b) = shiftOS b (seqFinish sh pos ss st) := by
+  unfold seqFinish
+  simp only [SeqSt.shift_result, Res.shift_isNil, SeqSt.shift_err, SeqSt.shift_cp]
+  by_cases hnil : ss.result.isNil = true
+  · simp only [hnil, if_true]
+    rcases ss.err with _ | e <;> rcases sh.name with _ | nm <;> simp [shiftOS, Out.shift, Res.shift, Err.shift]
+    split <;> rfl
+  · simp only [hnil]
+    rcases sh.name with _ | nm <;> simp [shiftOS, Out.shift, setError_shift]
+
+theorem seqTail_shift (b : Nat) (r r' : RunFn) (h : ShiftRel b r r') (sh : SeqShape) (fuel : Nat) (ctx : Ctx)
+    (pos : Nat) (st : St) :
+    seqTail r' sh fuel ctx (pos + b) (st.shift b) = (seqTail r sh fuel ctx pos st).map (shiftOS b) := by
+  unfold seqTail
+  have key := seqParse_shift b r r' h sh fuel 0 [] ctx pos true {} st
+  rw [show SeqSt.shift b {} = {} from rfl, List.map_nil] at key
+  rw [key]
+  rcases seqParse r sh fuel 0 [] ctx pos true {} st with _ | ⟨fst, ss, st1⟩
+  · rfl
+  · simp only [Option.map_some, shiftSeq, seqFinish_shift]
+
+/-! ### run -/
+
+/-- `cfg'` is `cfg` on the shifted file (whatever its `fileSet` is: `run` never reads it) -/
+structure CfgShift (b : Nat) (cfg cfg' : Cfg) : Prop where
+  file : cfg'.file = shiftFile b cfg.file
+  env : cfg'.env = cfg.env
+  params : cfg'.params = cfg.params
+  ghost : cfg'.ghost = cfg.ghost
+  maxCalls : cfg'.maxCalls = cfg.maxCalls
+
+theorem run_shift' (b : Nat) (cfg cfg' : Cfg) (hc : CfgShift b cfg cfg') (hws : WsShift b cfg.file) :
+    ∀ fuel g ctx pos st,
+      run cfg' fuel g ctx (pos + b) (St.shift b st) = (run cfg fuel g ctx pos st).map (shiftOS b) := by
+  have hcf := hc.file
+  have hce := hc.env
+  have hcp := hc.params
+  have hcm := hc.maxCalls
+  intro fuel
+  induction fuel with
+  | zero => intros; rfl
+  | succ fuel ih =>
+    intro g ctx pos st
+    have hrel : ShiftRel b (run cfg fuel) (run cfg' fuel) := ih
+    by_cases hmax : cfg.maxCalls ≠ 0 ∧ st.calls > cfg.maxCalls
+    · cases g <;> simp [run, hmax, hcm]
+    · cases g with
+      | term t =>
+        simp only [run, hcm, St.shift_calls, hmax, if_false]
+        simp only [hcp, hcf, Terminal.parse_shift]
+        cases Terminal.parse cfg.params cfg.file t pos with
+        | node n => simp [TermOut.shift, shiftOS, Out.shift, Res.shift]
+        | err e =>
+          have := logEv_shift' b cfg cfg' hc.ghost st (.termFail e.pos e.kind)
+          simp [TermOut.shift, shiftOS, Out.shift, Res.shift, ← this, Ev.shift, Err.shift]
+        | panic s => simp [TermOut.shift, shiftOS, Out.shift, Res.shift, Err.shift]
+      | empty =>
+        simp only [run, hcm, St.shift_calls, hmax, if_false]
+        simp [shiftOS, Out.shift, Res.shift, Node.shift]
+      | eof =>
+        simp only [run, hcm, St.shift_calls, hmax, if_false, hcf, isEOF_shift]
+        have := logEv_shift' b cfg cfg' hc.ghost st (.termFail pos (.other endErrMsg))
+        split <;> simp [shiftOS, Out.shift, Res.shift, Node.shift, Err.shift, ← this, Ev.shift]
+      | ref k =>
+        simp only [run, hcm, St.shift_calls, hmax, if_false, hce]
+        cases cfg.env[k]? with
+        | none => simp [shiftOS, Out.shift, Res.shift, Err.shift]
+        | some g' => exact ih g' ctx pos st
+      | memo idx body =>
+        simp only [run, hcm, St.shift_calls, hmax, if_false, St.shift_cache, cacheGet_shift]
+        cases cacheGet st.cache idx pos ctx with
+        | some e =>
+          have := logEv_shift' b cfg cfg' hc.ghost st (.hit idx pos)
+          simp [shiftOS, Out.shift, CacheEntry.shift, ← this, Ev.shift]
+        | none =>
+          simp only [Option.map_none, hcf, remaining_shift]
+          by_cases hcur : ctx.get idx > remaining cfg.file pos + Facts.curtailSlack
+          · have := logEv_shift' b cfg cfg' hc.ghost st (.curtail idx pos)
+            simp [hcur, shiftOS, Out.shift, Res.shift, ← this, Ev.shift]
+          · simp only [hcur, if_false]
+            have hdepth : (List.filter (fun a => a.fst == idx && a.snd == pos + b) (St.shift b st).active).length
+                = (List.filter (fun a => a.fst == idx && a.snd == pos) st.active).length := by
+              simp only [St.shift_active, List.filter_map, List.length_map]
+              congr 1
+              apply List.filter_congr
+              intro x _
+              simp [beq_add_right]
+            rw [hdepth]
+            have hst1 : (⟨List.map (CacheEntry.shift b) st.cache, (St.shift b st).ctxErr, st.calls,
+                  (idx, pos + b) :: (St.shift b st).active, (St.shift b st).log⟩ : St)
+                = St.shift b ⟨st.cache, st.ctxErr, st.calls, (idx, pos) :: st.active, st.log⟩ := by
+              simp [St.shift]
+            have hev : ∀ d, Ev.body idx (pos + b) d = Ev.shift b (Ev.body idx pos d) := fun _ => rfl
+            rw [hst1, hev, logEv_shift' b cfg cfg' hc.ghost, ih]
+            generalize run cfg fuel body (ctx.inc idx) pos _ = res
+            rcases res with _ | ⟨o, st2⟩
+            · rfl
+            · simp only [Option.map_some, shiftOS]
+              have he : (⟨idx, pos + b, ctx.filter (Out.shift b o).cp, (Out.shift b o).cp,
+                    (Out.shift b o).err, (Out.shift b o).res⟩ : CacheEntry)
+                  = CacheEntry.shift b ⟨idx, pos, ctx.filter o.cp, o.cp, o.err, o.res⟩ := rfl
+              rw [he, St.shift_cache, cacheSave_shift]
+              rfl
+      | any gs =>
+        simp only [run, hcm, St.shift_calls, hmax, if_false]
+        have key := anyLoop_shift b _ _ hrel ctx pos gs {} st
+        rw [show AltSt.shift b {} = {} from rfl] at key
+        rw [key]
+        rcases anyLoop (run cfg fuel) ctx pos gs {} st with _ | ⟨⟨acp, ares, aerr, anf⟩, st1⟩
+        · rfl
+        · simp only [Option.map_some, shiftAny, AltSt.shift_res, Res.shift_isNil]
+          split
+          · cases aerr <;> simp [shiftOS, Out.shift, Res.shift]
+          · simp [shiftOS, Out.shift, setError_shift]
+      | choice gs =>
+        simp only [run, hcm, St.shift_calls, hmax, if_false]
+        have key := choiceLoop_shift b _ _ hrel ctx pos gs {} st
+        rw [show AltSt.shift b {} = {} from rfl] at key
+        rw [key]
+        rcases choiceLoop (run cfg fuel) ctx pos gs {} st with _ | ⟨_ | o, ⟨acp, ares, aerr, anf⟩, st1⟩
+        · rfl
+        · simp only [Option.map_some, shiftChoice, Option.map_none]
+          cases aerr <;> simp [shiftOS, Out.shift, Res.shift]
+        · simp [shiftChoice, shiftOS]
+      | optional g' =>
+        simp only [run, hcm, St.shift_calls, hmax, if_false, ih]
+        rcases run cfg fuel g' ctx pos st with _ | ⟨o, st1⟩
+        · rfl
+        · have := appendNode_shift b o.res (.one (.empty pos))
+          rw [show Res.shift b (.one (.empty pos)) = .one (.empty (pos + b)) from rfl] at this
+          simp [shiftOS, Out.shift, this]
+      | suppress g' =>
+        simp only [run, hcm, St.shift_calls, hmax, if_false, ih]
+        rcases run cfg fuel g' ctx pos st with _ | ⟨o, st1⟩
+        · rfl
+        · simp [shiftOS, Out.shift]
+      | name g' nm =>
+        simp only [run, hcm, St.shift_calls, hmax, if_false, ih]
+        rcases run cfg fuel g' ctx pos st with _ | ⟨o, st1⟩
+        · rfl
+        · rcases o with ⟨res, cp, _ | e⟩
+          · simp only [Option.map_some, shiftOS, Out.shift, Option.map_none, Res.shift_isNil]
+            split <;> simp [shiftOS, Out.shift, Res.shift, Err.shift]
+          · simp only [Option.map_some, shiftOS, Out.shift, Err.shift_pos, Err.shift_kind, Nat.add_right_cancel_iff]
+            split <;> simp [shiftOS, Out.shift, Res.shift, Err.shift]
+      | single g' =>
+        simp only [run, hcm, St.shift_calls, hmax, if_false, ih]
+        rcases run cfg fuel g' ctx pos st with _ | ⟨o, st1⟩
+        · rfl
+        · rcases o with ⟨res, cp, _ | e⟩
+          · simp only [Option.map_some, shiftOS, Out.shift, Option.map_none]
+            rcases res with _ | n | l
+            · simp [Res.shift, shiftOS, Out.shift]
+            · rcases n with ⟨t, v, p, r⟩ | p | p | ⟨t, cs, p, r, i⟩
+              · simp [Res.shift, Node.shift, shiftOS, Out.shift]
+              · simp [Res.shift, Node.shift, shiftOS, Out.shift]
+              · simp [Res.shift, Node.shift, shiftOS, Out.shift]
+              · rcases cs with _ | ⟨c, _ | ⟨d, rest⟩⟩ <;> simp [Res.shift, Node.shift, shiftOS, Out.shift]
+            · simp [Res.shift, shiftOS, Out.shift]
+          · simp [shiftOS, Out.shift, Res.shift]
+      | ltrim g' m =>
+        simp only [run, hcm, St.shift_calls, hmax, if_false, hcf, hws pos m]
+        rcases skipWhitespaces cfg.file pos m with ⟨pos', ws⟩
+        simp only [shiftWs, wsToErr_shift, ih]
+        rcases run cfg fuel g' ctx pos' st with _ | ⟨o, st1⟩
+        · rfl
+        · rcases o with ⟨res, cp, _ | e⟩ <;> rcases wsToErr ws with _ | w <;> rcases hce : st1.ctxErr with _ | ce <;>
+            simp only [Out.shift, Option.map_some, Option.map_none, St.shift_ctxErr, hce, Err.shift_pos, Err.shift_kind,
+              Nat.add_right_cancel_iff, gt_iff_lt, Nat.add_lt_add_iff_right, setError_shift_some, shiftOS] <;>
+            (repeat' split) <;> simp [shiftOS, Out.shift, Res.shift, Err.shift]
+      | rtrim g' m =>
+        simp only [run, hcm, St.shift_calls, hmax, if_false, hcf, ih]
+        rcases run cfg fuel g' ctx pos st with _ | ⟨o, st1⟩
+        · rfl
+        · rcases o with ⟨res, cp, _ | e⟩
+          · simp only [Option.map_some, shiftOS, Out.shift, Option.map_none, setRposRes_shift b _ m hws]
+            rcases setRposRes cfg.file m res with ⟨res', _ | w⟩ <;> simp [shiftOS, Out.shift, Res.shift]
+          · simp only [Option.map_some, shiftOS, Out.shift, Err.shift_pos, Err.shift_kind, hws e.pos m]
+            rcases skipWhitespaces cfg.file e.pos m with ⟨errPos, x⟩
+            simp only [shiftWs, gt_iff_lt, Nat.add_lt_add_iff_right]
+            split <;> simp [Err.shift]
+      | seq k gs o =>
+        rw [run_seqFamily _ _ _ _ _ _ _ (Or.inl ⟨_, _, _, rfl⟩) rfl, run_seqFamily _ _ _ _ _ _ _ (Or.inl ⟨_, _, _, rfl⟩) rfl]
+        simp only [hcm, St.shift_calls, hmax, if_false]
+        exact seqTail_shift b _ _ hrel _ fuel ctx pos st
+      | many g' ae o =>
+        rw [run_seqFamily _ _ _ _ _ _ _ (Or.inr (Or.inl ⟨_, _, _, rfl⟩)) rfl,
+          run_seqFamily _ _ _ _ _ _ _ (Or.inr (Or.inl ⟨_, _, _, rfl⟩)) rfl]
+        simp only [hcm, St.shift_calls, hmax, if_false]
+        exact seqTail_shift b _ _ hrel _ fuel ctx pos st
+      | sepBy v s' ae o =>
+        rw [run_seqFamily _ _ _ _ _ _ _ (Or.inr (Or.inr ⟨_, _, _, _, rfl⟩)) rfl,
+          run_seqFamily _ _ _ _ _ _ _ (Or.inr (Or.inr ⟨_, _, _, _, rfl⟩)) rfl]
+        simp only [hcm, St.shift_calls, hmax, if_false]
+        exact seqTail_shift b _ _ hrel _ fuel ctx pos st
+
+theorem run_shift (b : Nat) (cfg : Cfg) (hws : WsShift b cfg.file) :
+    ∀ fuel g ctx pos st,
+      run (shiftCfg b cfg) fuel g ctx (pos + b) (St.shift b st) = (run cfg fuel g ctx pos st).map (shiftOS b) :=
+  run_shift' b cfg _ ⟨rfl, rfl, rfl, rfl, rfl⟩ hws
 
 end PV
